@@ -269,18 +269,19 @@ def language_results(ctx):
     _results[key] = out
     return out
 
-def rule_language(ctx, rule):
+def rule_language(ctx, rule, probes=None, what='language and rule priority'):
     """C01.R7: the emitted tables denote, for every start condition and beginning-of-line state and over ALL byte strings,
     the same accepted rules as the reference automaton built from the rule text by the E3 model."""
     rep = ctx.rep
     res = language_results(ctx)
     states = 0
     for name, (probe, kind, rej, dis, n, v) in sorted(res.items()):
+        if probes is not None and probe not in probes: continue
         states += n
         if isinstance(dis, str):
             rep.broken('%s: language probe %s: %s' % (rule, name, dis))
         if not dis:
-            rep.ok(rule, '%s (%s tables%s): language and rule priority equal the reference over all inputs (%d product states)' % (name, kind, ', REJECT lists' if rej else '', n))
+            rep.ok(rule, '%s (%s tables%s): %s equal the reference over all inputs (%d product states)' % (name, kind, ', REJECT lists' if rej else '', what, n))
             continue
         for sc, bol, w, tv, rv in dis[:3]:
             k = '%s:tables:%s:%s:%s' % (rule, probe, sc, w.hex() or 'start')
